@@ -1210,6 +1210,17 @@ func (x *c04Exec) makeAuthors(repo repository.ClockedRepo, kr repository.Keyring
 			} else if v, ok := re.ImmutableMetadata()["verif-late"]; !ok && re.MutableMetadata()["verif-late"] == "" {
 				x.find("identity-late-metadata-lost", fmt.Sprintf("identity %s: metadata set between Id() and Commit is not stored (%q)", before.Human(), v))
 			}
+			// the same key set again on the committed identity: the object in memory must keep describing what is stored
+			id.SetMetadata("verif-late", "a second value")
+			if err := id.Commit(repo); err != nil {
+				return nil, err
+			}
+			x.count("identity_in_memory_vs_stored_comparisons", 1)
+			if re, rerr := identity.ReadLocal(repo, before); rerr == nil {
+				if mem, disk := world.JSON(world.RenderIdentity(id)), world.JSON(world.RenderIdentity(re)); mem != disk {
+					x.find("identity-in-memory-differs-from-stored", fmt.Sprintf("identity %s after a second SetMetadata+Commit: the committed object and a fresh read differ: %s", before.Human(), c04FirstDiff(mem, disk)))
+				}
+			}
 		}
 		if keyed {
 			switch x.c.Mode {
